@@ -196,7 +196,7 @@ def timestamp_contract():
         Case('representable', when=lambda c: ok(c) and rep(c), returns=out),
         Case('beyond-datetime-range', when=lambda c: ok(c) and neg(rep(c)), raises=(ValueError, OverflowError)),
         Case('too-short', when=lambda c: not ok(c), raises=struct.error),
-    ], trusted=True, doc='C05: seconds up to 0xFFFFFFFF, milliseconds above; refused when not representable')
+    ], doc='C05/C15: seconds up to 0xFFFFFFFF, milliseconds above; a UTC-aware datetime; refused when not representable')
 
 
 def decimal_contract():
